@@ -17,7 +17,7 @@ TITLE = "URL and Windows-path parts index into, and decode from, their parent's 
 SCHEMES = [b"http", b"HTTP", b"hTtp", b"https", b"ftp"]
 USERINFO = [b"", b"u@", b"u:p@", b":p@", b"u:@", b"u:p:q@", b"%41b@", b"u%40x:p%3A@", b"a@b@", b"u:p@q@", b"@@"]
 HOSTS = [b"example.com", b"ex%61mple.com", b"8.8.4.4", b"0x7f.1", b"2130706433", b"%31.1.1.1", b"[::1]", b"[0:0:0:0:0:0:0:1]", b"%5B::1%5D",
-         b"a-b.example.org", b"010.1.1.1", b"EXAMPLE.COM", b"[::ffff:1.2.3.4]"]
+         b"a-b.example.org", b"010.1.1.1", b"EXAMPLE.COM", b"[::ffff:1.2.3.4]", b"%5%42ad.example.com", b"%%35Bx.com"]
 PORTS = [b"", b":", b":80", b":65535", b":00080"]
 SEGS = [b"a", b".", b"..", b"%2e", b"%2E%2e", b"%2F", b"%41", b"", b"b%3Fc", b"%2%45%2%65", b"%2%65"]
 QUERIES = [b"", b"?", b"?q=%41", b"?a/b?c%2Fd"]
@@ -30,7 +30,7 @@ WIN_SEGS = [b"abc", b".", b"..", b"a.b"]
 WIN_FILES = [b"x.exe", b"y.dll", b"z.txt", b"noext", b"a.b.DLL"]
 WIN_EMBED = [(b"", b""), (b"x ", b" y"), (b'"', b'"')]
 
-STREAM_FAMS = ["net", "winpath", "mix", "ctx"]
+STREAM_FAMS = ["net", "winpath", "mix", "ctx", "pairs"]
 PATH_LEN = {"quick": 3, "thorough": 4}
 WIN_LEN = {"quick": 3, "thorough": 5}
 
@@ -119,6 +119,15 @@ def expected_url_children(v: bytes):
     return out
 
 
+def _unterminated_ip_literal(v: bytes) -> bool:
+    parts = url_ref.split_url(v)
+    if not parts or "host" not in parts:
+        return False
+    a, b = parts["host"]
+    dec = url_ref.pct_decode(v[a:b])
+    return dec.startswith(b"[") and not dec.endswith(b"]")
+
+
 def kids(n):
     return [(c.type, c.value, c.obfuscation, c.start, c.end) for c in n.children]
 
@@ -149,6 +158,10 @@ def check_url_node(rec, n, w, size):
     if len(got) >= 2:
         rec.mark("nontrivial", n.value)
     rec.mark("outcomes", tuple(g[0] + g[2] for g in got))
+    if got != exp and _unterminated_ip_literal(n.value):
+        # "[" without "]" in the host: RFC 3986 gives such an authority no decomposition, and the statement constrains the part children that
+        # exist; the user name / password children may be absent (everything outside the authority is still required and checked)
+        exp = [e for e in exp if e[0] not in ("network.url.username", "network.url.password") or e in got]
     if got != exp:
         cause = url_cause(got, exp)
         rec.violation("C12.url.parts", f"url-parts|{cause}", w,
